@@ -61,6 +61,40 @@ class FakeSSLSocket(ssl.SSLSocket):
         pass
 
 
+import socket as _socket
+
+
+class FakeTcpSocket(_socket.socket):
+    """Instance of the real socket.socket type (wrap_server asserts isinstance) delegating to a FakeSocket."""
+
+    def __init__(self, inner):      # noqa: deliberately not calling socket.__init__
+        self._inner = inner
+
+    def fileno(self):
+        return self._inner.fileno()
+
+    def send(self, data, flags=0):
+        return self._inner.send(data)
+
+    def recv(self, n=1024, flags=0):
+        return self._inner.recv(n)
+
+    def close(self):
+        return self._inner.close()
+
+    def shutdown(self, how):
+        return self._inner.shutdown(how)
+
+    def setblocking(self, b):
+        return self._inner.setblocking(b)
+
+    def settimeout(self, t):
+        pass
+
+    def __del__(self):
+        pass
+
+
 class _Ctx:
     def __init__(self, kind, **kw):
         self.kind = kind
@@ -89,7 +123,7 @@ class _Ctx:
             raise ssl.SSLEOFError(8, 'EOF occurred in violation of protocol')
         if o == 'pipe':
             raise BrokenPipeError(32, 'broken pipe')
-        return FakeSSLSocket(sock, which)
+        return FakeSSLSocket(getattr(sock, '_inner', sock), which)
 
 
 class _SslShim:
@@ -196,16 +230,20 @@ def intercept(h0: int, h1: int, so: int, co: int, cache: int, di: int, d0: int) 
     host = B(h0, h1) + b'.example'
     with concrete():
         env = envkit.new_env()
+        env.upstream_factory = lambda addr: FakeTcpSocket(env.sock('upstream'))
         h, cs = envkit.make_handler(FL[insecure], env)
     cs.inq.append(b'CONNECT ' + host + b':443 HTTP/1.1\r\n\r\n')
     try:
         td = run(h.handle_events([cs.fd], []))
     except Exception as e:
+        import os, traceback
+        if os.environ.get('VERIF_DEBUG_FAIL'):
+            traceback.print_exc()
         return fail('exception left handle_events', exc=repr(e))
     closing = bool(td) or h.must_flush_before_shutdown
     if len(env.connects) != 1:
         return fail('not exactly one upstream connection')
-    us = env.connects[0][1]
+    us = env.connects[0][1]._inner
     hs = host.decode()
     if env.connects[0][0] != (hs, 443):
         return fail('connected elsewhere', got=repr(env.connects[0][0]))
